@@ -178,9 +178,19 @@ fn idstr_strategy(k: String) -> impl Strategy<Value = IdStrCase> {
     (bytes(), bytes(), any::<bool>(), any::<u8>(), junk).prop_map(|(a, mut b, same, flip, junk)| {
         if same && b.len() == a.len() {
             b = a.clone();
-            if flip % 3 == 0 && !b.is_empty() {
+            if flip % 4 == 0 && !b.is_empty() {
                 let i = flip as usize % b.len();
                 b[i] ^= 1 << (flip % 8);
+            } else if flip % 4 == 1 && b.len() >= 2 {
+                // two bytes exchanged / the same difference applied at two positions
+                let i = flip as usize % b.len();
+                let j = (i + 1 + (flip as usize / 7) % (b.len() - 1)) % b.len();
+                b.swap(i, j);
+            } else if flip % 4 == 2 && b.len() >= 2 {
+                let i = flip as usize % b.len();
+                let j = (i + 3) % b.len();
+                b[i] ^= 0x5a;
+                b[j] ^= 0x5a;
             }
         }
         IdStrCase { a, b, junk }
